@@ -251,11 +251,16 @@ func toBits(bitDefintions []*meta.Bit, v interface{}) (val.Bits, error) {
 	switch x := v.(type) {
 	case []string: // labels only
 		for _, strBit := range x {
+			found := false
 			for _, bitDef := range bitDefintions {
 				if strBit == bitDef.Ident() {
+					found = true
 					result.Labels = append(result.Labels, strBit)
 					result.Positions = result.Positions | (1 << bitDef.Position)
 				}
+			}
+			if !found && strBit != "" {
+				return result, fmt.Errorf("'%s' is not one of the defined bits", strBit)
 			}
 		}
 		return result, nil
